@@ -41,6 +41,8 @@ inductive Val where
   | objstm (id : Nat) (n : Nat)
   | bytes (h : String)
   | rawimg (h : String) (f : Nat)
+  | annot (id : Nat)
+  | annots (ids : List Nat)
 deriving Repr, Inhabited
 
 def tP : Nat := 0  -- PagesNode
@@ -51,6 +53,8 @@ def tS : Nat := 4  -- Stream<()>
 def tX : Nat := 5  -- ImageXObject
 def tO : Nat := 6  -- ObjectStream
 def tC : Nat := 7  -- Catalog
+def tA : Nat := 8  -- Annot
+def tV : Nat := 9  -- Vec<MaybeRef<Annot>>  (what `Page::annotations : Lazy<_>` holds)
 
 /-- filter codes: 1 ASCIIHex, 2 ASCII85, 3 LZW, 4 Flate, 5 RunLength, 6 DCT -/
 inductive Kind where
@@ -62,6 +66,8 @@ inductive Kind where
   | stream (filters : List Nat) (stages : List String)
   | image (filters : List Nat) (stages : List String)
   | objstm (n : Nat) (filters : List Nat) (stages : List String)
+  | annot (page : Nat)                                         -- annotation dictionary, /P page (0 = none)
+  | annots (ids : List Nat)                                    -- array object `[a 0 R b 0 R …]`
 deriving Repr, Inhabited
 
 inductive Place where
@@ -150,6 +156,27 @@ def parentP (d : Desc) (p : Nat) (optional : Bool) (k : Val → P) : P :=
     | .err e => if optional && d.tolerant then k .none else errP e
     | .oof => oofP
 
+/-- `Option<PageRc>` field `/P` of an annotation -/
+def pageRefP (d : Desc) (p : Nat) (k : P) : P :=
+  .get tP p fun x => match x with
+    | .ok (.leaf _ _) => k
+    | .ok _ => if d.tolerant then k else errP "E"
+    | .err e => if d.tolerant then k else errP e
+    | .oof => oofP
+
+/-- `Annot::from_primitive` on the dictionary of object `id` -/
+def annotP (d : Desc) (id page : Nat) (k : P) : P :=
+  if page = 0 then k else pageRefP d page k
+
+/-- `Vec<MaybeRef<Annot>>::from_primitive([a 0 R, b 0 R, …])`: one `get::<Annot>` per element, in order;
+    the first error ends it -/
+def annotsLoop : List Nat → List Nat → P
+  | [], acc => okP (.annots acc.reverse)
+  | a :: rest, acc => .get tA a fun x => match x with
+      | .ok _ => annotsLoop rest (a :: acc)
+      | .err e => errP e
+      | .oof => oofP
+
 /-- `T::from_primitive(p, resolve)` where `p` is the primitive of object `id` -/
 def fromPrim (d : Desc) (T : Nat) (id : Nat) (k : Kind) : P :=
   if T = tR then okP (.prim id)
@@ -159,7 +186,7 @@ def fromPrim (d : Desc) (T : Nat) (id : Nat) (k : Kind) : P :=
     | _ => errP "E"
   else if T = tD then
     match k with
-    | .dict | .pages .. | .page .. | .cat .. => okP (.dict id)
+    | .dict | .pages .. | .page .. | .cat .. | .annot .. => okP (.dict id)
     | _ => errP "E"
   else if T = tP then
     match k with
@@ -185,6 +212,15 @@ def fromPrim (d : Desc) (T : Nat) (id : Nat) (k : Kind) : P :=
         | .ok _ => okP (.objstm id n)
         | .err e => errP e
         | .oof => oofP
+    | _ => errP "E"
+  else if T = tA then
+    match k with
+    | .annot page => annotP d id page (okP (.annot id))
+    | _ => errP "E"
+  else if T = tV then
+    match k with
+    | .annots ids => annotsLoop ids []
+    | .annot page => annotP d id page (okP (.annots [id]))
     | _ => errP "E"
   else errP "E"
 
@@ -280,6 +316,22 @@ def pageP (root : R) (n : Nat) : P :=
   | .ok (.cat _ (.tree _ _ ks _)) => pageLoop 16 ks 0 n
   | _ => errP "E"
 
+/-- how the `/Annots` entry of a page is written: the primitive that `Page::annotations : Lazy<_>` keeps -/
+inductive CellForm where
+  | direct (ids : List Nat)      -- `[a 0 R b 0 R]`
+  | ref (r : Nat)                -- `r 0 R`, an array object
+  | absent
+deriving Repr, Inhabited
+
+/-- the initialiser `Lazy::load` hands to `get_or_try_init` (object/mod.rs) -/
+def lazyInit : CellForm → P
+  | .direct ids => annotsLoop ids []
+  | .ref r => .get tV r fun x => match x with
+      | .ok v => okP v
+      | .err e => if e = "N" || e = "F" || e = "U" then okP (.annots []) else errP e   -- `is_missing_object`
+      | .oof => oofP
+  | .absent => okP (.annots [])
+
 /-- the call kinds of the property -/
 inductive CallK where
   | get (T id : Nat)
@@ -312,6 +364,8 @@ def depsOf (d : Desc) (id : Nat) : List Nat :=
       | .pages p _ _ => if p = 0 then [] else [p]
       | .page p => [p]
       | .cat p => [p]
+      | .annot p => if p = 0 then [] else [p]
+      | .annots ids => ids
       | _ => [])
 
 def rkF (d : Desc) : Nat → Nat → Nat
@@ -342,6 +396,8 @@ def Val.render : Val → String
   | .objstm id n => s!"O{id}.{n}"
   | .bytes h => s!"B{h}"
   | .rawimg h f => s!"B{h}/{f}"
+  | .annot id => s!"A{id}"
+  | .annots ids => s!"V[{natList ids}]"
 
 def renderRes : R → String
   | .ok v => s!"ok:{v.render}"
